@@ -50,7 +50,10 @@ def graphs_for(ctx):
     conn = {k: [g for g in cz.all_graphs(k) if nx.is_connected(g)] for k in (2, 3, 4)}
     unions = [(a, b) for ka, kb in ((2, 3), (3, 2), (2, 4), (4, 2), (3, 3), (3, 4), (4, 3), (4, 4), (2, 2))
               for a in conn[ka] for b in conn[kb]]
-    for a, b in (ctx.rng.sample(unions, 14) if ctx.quick else ctx.rng.sample(unions, 400)):
+    # quick: mostly unions with a 4-vertex block (two emitters are in use when the next block starts)
+    big = [u for u in unions if max(u[0].number_of_nodes(), u[1].number_of_nodes()) == 4]
+    picked = (ctx.rng.sample(big, 14) + ctx.rng.sample(unions, 6)) if ctx.quick else ctx.rng.sample(unions, 400)
+    for a, b in picked:
         gs.append(nx.disjoint_union(a, b))
     if not ctx.quick:
         for _ in range(40):
